@@ -324,6 +324,7 @@ Definition internal_receive (d : dpkt) : ires :=
    above; anything else is reported as DUnsupported and is outside the send -> receive theorems) *)
 Inductive dres := DecOk (p : dpkt) | DUnsupported.
 
+Definition two63 : N := 9223372036854775808.
 Definition nat_of_be (l : bytes) : N := u64 (be_val l).      (* tempVal = tempVal<<8 | x over the value bytes *)
 
 (* one LpPacket field: returns updated fields and the rest *)
@@ -340,11 +341,17 @@ Fixpoint lp_fields (fuel : nat) (s : bytes) (f : lpf) : option (option lpf) :=  
         match tl_dec r1 with
         | None => Some None
         | Some (l, r2) =>
-          if lenN r2 <? l then (if (typ =? T_SEQ) || (typ =? T_IDX) || (typ =? T_CNT) || (typ =? T_TOK) || (typ =? T_INFACE)
-                                   || (typ =? T_MARK) || (typ =? T_FRAG) then Some None else None)
+          (* natural-number fields are read by `for i := 0; i < int(l); i++ { ReadByte }`: for an announced length >= 2^63 the
+             int is NEGATIVE, the loop body never runs - nothing is consumed, the value is 0 and parsing goes on right after the
+             length; for 2^63 > l > remaining the loop runs into EOF (error).  PitToken (`l > remaining`, unsigned) and Fragment
+             (ReadWire(int(l)) refuses a negative length) are errors for every oversize length. *)
+          let negnat := ((typ =? T_SEQ) || (typ =? T_IDX) || (typ =? T_CNT) || (typ =? T_INFACE) || (typ =? T_MARK)) && (two63 <=? l) in
+          if negb negnat && (lenN r2 <? l) then
+            (if (typ =? T_SEQ) || (typ =? T_IDX) || (typ =? T_CNT) || (typ =? T_TOK) || (typ =? T_INFACE)
+                || (typ =? T_MARK) || (typ =? T_FRAG) then Some None else None)
           else
-            let v := takeN l r2 in
-            let rest := dropN l r2 in
+            let v := if negnat then [] else takeN l r2 in
+            let rest := if negnat then r2 else dropN l r2 in
             let upd (g : lpf) := lp_fields fu rest g in
             if typ =? T_SEQ then upd (mkLpf (Some (nat_of_be v)) (f_idx f) (f_cnt f) (f_tok f) (f_inface f) (f_nexthop f) (f_cachepol f) (f_mark f) (f_frag f))
             else if typ =? T_IDX then upd (mkLpf (f_seq f) (Some (nat_of_be v)) (f_cnt f) (f_tok f) (f_inface f) (f_nexthop f) (f_cachepol f) (f_mark f) (f_frag f))
